@@ -760,6 +760,15 @@ func rulesC12(c *Ctx) {
 					return true
 				}
 				if f.BuiltinName(x) == "append" && len(x.Args) >= 1 {
+					// append onto x[:n:n] (capacity clipped to the length) always allocates
+					if se, isSE := ast.Unparen(x.Args[0]).(*ast.SliceExpr); isSE && se.Slice3 && se.High != nil && se.Max != nil && exprStr(se.High) == exprStr(se.Max) && len(x.Args) >= 2 {
+						return true
+					}
+					if ce, isC := ast.Unparen(x.Args[0]).(*ast.CallExpr); isC {
+						if fn := f.Callee(ce); fn != nil && fn.Pkg() != nil && fn.Pkg().Path() == "slices" && fn.Name() == "Clip" && len(x.Args) >= 2 {
+							return true
+						}
+					}
 					return isNilIdent(x.Args[0]) || freshExpr(f, x.Args[0], depth+1)
 				}
 				if len(x.Args) == 1 && f.Info().Types[x.Fun].IsType() {
